@@ -35,6 +35,10 @@ def run(chk):
     for m in ln.machine_variants():
         save(chk, prog, ln, m)
         load(chk, prog, ln, m)
+    # the loaders hand the loaded RAM to the display through this routine: it must feed every screen page
+    from . import c08
+    chk.rule("T-PAIR/refresh", "refresh_memory_dependent_devices re-reads every screen page of the machine (shared with C08)")
+    c08.refresh_covers_banks(chk, prog, cc.Names(prog))
     return chk.finish(EXPL)
 
 
